@@ -35,6 +35,15 @@ type QuantizeRes struct {
 // adjusted exponent exceeds Emax. limitDigits=false gives RoundToIntegral semantics.
 func Quantize(x core.Dec, e int64, c core.Ctx, limitDigits bool) QuantizeRes {
 	r := QuantizeRes{E: e, Neg: x.Neg}
+	if limitDigits {
+		// decide the range condition first: the target may be anywhere in the int32 range and
+		// the rescaling below would need a power of ten of that size
+		if etiny := int64(c.Emin) - int64(c.P) + 1; e < etiny || e > int64(c.Emax) {
+			r.Invalid = true
+			r.N = new(big.Int)
+			return r
+		}
+	}
 	n, inexact := DivRound(x.Big(), one, int64(x.Exp), e, c.Rounding, x.Neg)
 	r.N, r.Inexact = n, inexact
 	r.Rounded = e > int64(x.Exp)
